@@ -10,7 +10,7 @@ HERE = os.path.dirname(os.path.dirname(os.path.abspath(__file__)))
 CHECKS = {
     "C19": (
         "exploration",
-        "Hypothesis grammar-based generation; round-trip + reference-splitter differential oracle",
+        "Hypothesis grammar-based generation + atheris coverage-guided lane; round-trip / reference-splitter differential oracle; wire lane through the real client and server protocol",
         "Generated search over RFC 3986 gemini URLs (denotation known by construction) and tolerated "
         "mutations; normalised form must parse, denote the same host/port/path/query (independent "
         "reference splitter and library parser) and be a fixed point. Finds counterexamples, never proves absence.",
@@ -20,7 +20,8 @@ CHECKS = {
     "C01": (
         "exploration",
         "Hypothesis-generated handler/middleware scripts x request bytes x segmentations x schedules on the real "
-        "protocol under a virtual clock; well-formedness + exact-bytes differential oracle",
+        "protocol under a virtual clock and on both real TLS stacks in memory, plus an atheris lane; well-formedness + "
+        "exact-bytes differential oracle",
         "Generated search over request bytes, read segmentations, handler/middleware/upload outcomes and event "
         "orderings (data, timer, gate release, disconnect) against an explicit wire oracle: exactly one well-formed "
         "response then close, byte-exact when the responsible component produced a sendable value. Finds "
@@ -31,8 +32,9 @@ CHECKS = {
     ),
     "C07": (
         "exploration",
-        "exhaustive small-scope enumeration of read segmentations + Hypothesis random segmentations; metamorphic "
-        "oracle against the single-read baseline",
+        "exhaustive small-scope enumeration of read segmentations + Hypothesis random segmentations (plaintext protocol "
+        "in four delivery modes and real TLS ciphertext through the PyOpenSSL pump); metamorphic oracle against the "
+        "single-read / record-by-record baseline",
         "All 2^(n-1) segmentations of short requests, all 1- and 2-cut segmentations of longer ones and random "
         "multi-cut ones, in three delivery modes, must give the same response bytes and the same single handler "
         "invocation as one read; exhaustive only for the enumerated requests.",
@@ -41,8 +43,8 @@ CHECKS = {
     ),
     "C08": (
         "exploration",
-        "Hypothesis grammar/corruption/free-bytes generation with a three-valued reference classifier; exhaustive "
-        "length sweep 1000..1040",
+        "Hypothesis grammar/corruption/free-bytes generation (lines delivered whole, cut at CR|LF or at a fraction) with a "
+        "three-valued reference classifier; exhaustive length sweep 1000..1040; atheris lane",
         "Must-accept lines (grammar, up to exactly 1024 bytes) must reach the spy handler with host/port/path/query "
         "(and Titan size/mime/token/content) intact; must-reject lines get 59 (50 for titan:// when uploads are off) "
         "with no spy invoked; free bytes only 'invoked => acceptable'. Grey zones never alarm.",
